@@ -82,12 +82,12 @@ def copy_line(group):
     return -1
 
 
-def falsified(group):
+def falsified(group, fid=999999):
     """Binding self-test input: copy of a program's trace in which one migrated object's tag set in the logged
     destination views of a successful Migrate line is altered.  Returns (trace, variant falsified)."""
     g = json.loads(json.dumps(group))
     for ln in g:
-        ln["prog"] = 999999
+        ln["prog"] = fid
     v = g[copy_line(g)]
     for b in v["views_dst"]:
         for k in b["keys"]:
@@ -233,19 +233,25 @@ def run(ctx):
         ngroups += len(groups)
         extra = []
         if first:
-            st = [g for g in groups if has_copy(g)]
-            fg, fvar = falsified(st[0]) if st else (None, 0)
-            extra = [fg] if fg else []      # none: judged after the verdicts (broken code is a verdict, not infra)
+            st = [g for g in groups if has_copy(g)][:3]
+            fgs = [falsified(g, 999999 - j) for j, g in enumerate(st)]
+            extra = [fg for fg, _ in fgs if fg]   # none: judged after the verdicts (broken code is a verdict, not infra)
         recs, drp = validate(ctx, groups + extra, "Migrate.TraceBig.cfg" if big else "Migrate.Trace.cfg")
         if first and extra:
-            fake = [r for r in recs if r["prog"] == 999999]
-            recs = [r for r in recs if r["prog"] != 999999]
-            orig = {r["variant"]: r["verdict"] for r in recs if r["prog"] == st[0][0]["prog"]}
-            got = {r["variant"]: r["verdict"] for r in fake}
-            if got.get(fvar) != "mismatch" or any(got.get(v) != orig[v] for v in orig if v != fvar):
-                raise vlib.Infra("binding self-test failed: a falsified destination view was not (exactly) rejected: %s vs %s" %
-                                 (got, orig))
-            ctx.extra["binding_selftest"] = "altered tag set in the logged destination of program %s rejected" % st[0][0]["prog"]
+            # a falsified copy is conclusive if the original line was explained (not itself a mismatch)
+            fakes = {(r["prog"], r["variant"]): r["verdict"] for r in recs if r["prog"] >= 999990}
+            recs = [r for r in recs if r["prog"] < 999990]
+            concl = []
+            for j, g in enumerate(st):
+                fvar = fgs[j][1]
+                orig = [r["verdict"] for r in recs if r["prog"] == g[0]["prog"] and r["variant"] == fvar]
+                if fgs[j][0] and orig and orig[0] != "mismatch":
+                    concl.append(fakes.get((999999 - j, fvar)))
+            if concl and all(v == "mismatch" for v in concl):
+                ctx.extra["binding_selftest"] = "altered tag set in the logged destination of %d program(s) %s rejected" % (
+                    len(concl), [g[0]["prog"] for g in st])
+            elif concl:
+                raise vlib.Infra("binding self-test failed: a falsified destination view was accepted: %s" % concl)
         for r in recs:
             r["bigrun"] = big
             r["stacks"] = "%s->%s" % (src, dst)
